@@ -344,7 +344,8 @@ pub fn write_file(fmt: Fmt, recs: &[RecordModel], vv: bool, crlf: bool) -> Vec<u
 // ---------------------------------------------------------------------------------------------
 
 pub const WIDTHS: [usize; 4] = [1, 2, 7, 25];
-pub const MAGNITUDES: [u32; 6] = [0, 1, 9, 10, 99_999, u32::MAX];
+/// 2^23+1 and 2^24-1: odd counts at the top of the range f32 holds exactly (rounding ties of x+0.5 there)
+pub const MAGNITUDES: [u32; 8] = [0, 1, 9, 10, 99_999, u32::MAX, 8_388_609, 16_777_215];
 /// cell-content modes: 0 = wiring codes (every cell of a record distinct), 1 = the magnitude menu
 /// cycled over cells, 2 = ten-digit values near u32::MAX, 3 = all zero
 pub const N_MODES: usize = 4;
